@@ -114,6 +114,10 @@ ValidLeaf(p, instrs) ==
   \/ (p.k = "ins" /\ (IF instrs = <<>> THEN p.v = "NOOP" ELSE \E i \in 1..Len(instrs) : instrs[i] = p.v))
   \/ (p.k = "float" /\ ~FIsNaN(p.v) /\ ~FLt(p.v, FPosZero) /\ FLt(p.v, FOne))
 ValidCode(it, instrs) == \A i \in 1..Len(Points(it)) : ValidLeaf(Points(it)[i], instrs)
+\* name leaves: a currently bound name whenever new names cannot be drawn and some name is bound
+NamesOK(it, bound, pzero) ==
+  ~pzero \/ bound = <<>> \/ \A i \in 1..Len(Points(it)) :
+     Points(it)[i].k = "id" => \E j \in 1..Len(bound) : bound[j] = Points(it)[i].v
 TrueCountOK(v, n, sp) ==
   LET cnt == Cardinality({i \in 1..Len(v) : v[i]})
       t   == FloorScaled(sp, 16)
@@ -129,7 +133,9 @@ JudgeGen(e) ==
        CASE m = "random_code" ->
               IF a[2] < 2 THEN e.ret = RNone
               ELSE e.ret.t = "some" /\ Size(e.ret.v) >= 1 /\ Size(e.ret.v) <= a[2] - 1 /\ ValidCode(e.ret.v, a[1])
+                   /\ NamesOK(e.ret.v, a[3], a[4])
          [] m = "random_code_with_size" -> e.ret.t = "some" /\ Size(e.ret.v) = a[2] /\ ValidCode(e.ret.v, a[1])
+                                           /\ NamesOK(e.ret.v, a[3], a[4])
          [] m = "decompose" -> e.ret.t = "some" /\ SumSeq(e.ret.v) = a[1] /\ \A i \in 1..Len(e.ret.v) : e.ret.v[i] >= 1
          [] m = "random_bool_vector" ->
               IF a[1] < 0 \/ FIsNaN(a[2]) \/ FLt(a[2], FPosZero) \/ FGt(a[2], FOne) THEN e.ret = RNone
@@ -141,9 +147,23 @@ JudgeGen(e) ==
               IF a[1] < 0 \/ ~FIsFinite(a[3]) \/ FLt(a[3], FPosZero) THEN e.ret = RNone
               ELSE e.ret.t = "some" /\ Len(e.ret.v) = a[1]
                    /\ (FIsZero(a[3]) /\ FIsFinite(a[2]) => \A i \in 1..Len(e.ret.v) : FEq(e.ret.v[i], a[2]))
-         [] m = "random_integer" -> e.ret.t = "some" => TRUE
-         [] m = "random_float" -> TRUE
-         [] m \in {"existing_random_name", "new_random_name"} -> e.ret.t = "some"
+         \* args <<min, max>> mirror the configuration of the state the call ran in
+         [] m = "random_integer" -> IF a[1] < a[2] THEN e.ret.t = "some" /\ e.ret.v >= a[1] /\ e.ret.v < a[2] ELSE e.ret = RNone
+         [] m = "random_float" -> IF FLt(a[1], a[2]) THEN e.ret.t = "some" /\ ~FLt(e.ret.v, a[1]) /\ FLt(e.ret.v, a[2]) ELSE e.ret = RNone
+         [] m = "random_float_many" -> \A i \in 1..Len(e.ret.v) : ~FLt(e.ret.v[i], a[1]) /\ FLt(e.ret.v[i], a[2])
+         \* min is produced, max never (the number of draws makes a miss of min less likely than 1e-12)
+         [] m = "random_integer_stats" -> IF a[1] < a[2] THEN e.ret.v.count = a[3] /\ e.ret.v.min = a[1] /\ e.ret.v.max = a[2] - 1
+                                          ELSE e.ret.v.count = 0
+         [] m = "random_int_vector_stats" -> IF a[1] < 0 \/ a[3] <= a[2] THEN e.ret.v.count = 0
+                                             ELSE e.ret.v.badlen = 0 /\ (e.ret.v.count > 0 => e.ret.v.min = a[2] /\ e.ret.v.max = a[3] - 1)
+         \* every position is able to become TRUE; the TRUE count is constant for fixed parameters
+         [] m = "random_bool_vector_cover" ->
+              IF a[1] < 0 \/ FIsNaN(a[2]) \/ FLt(a[2], FPosZero) \/ FGt(a[2], FOne) THEN e.ret.v.nones = a[3]
+              ELSE /\ e.ret.v.nones = 0 /\ e.ret.v.cmin = e.ret.v.cmax
+                   /\ (e.ret.v.cmax > 0 /\ e.ret.v.cmax < a[1] => \A i \in 1..Len(e.ret.v.ever) : e.ret.v.ever[i])
+         \* args <<bound names>>
+         [] m = "existing_random_name" -> e.ret.t = "some" /\ (a[1] # <<>> => \E j \in 1..Len(a[1]) : a[1][j] = e.ret.v)
+         [] m = "new_random_name" -> e.ret.t = "some" /\ Len(e.ret.v) > 0
          [] OTHER -> FALSE,
        subj, own, "generator result violates its documented contract")
 
